@@ -15,6 +15,10 @@ Lemma spawned_wr w t k o : w_spawned (wr w t k o) = w_spawned w.
 Proof. destruct t; reflexivity. Qed.
 Lemma hist_wr w t k o : w_hist (wr w t k o) = w_hist w.
 Proof. destruct t; reflexivity. Qed.
+Lemma spawned_tset w t k o : w_spawned (tset w t k o) = w_spawned w.
+Proof. destruct t; reflexivity. Qed.
+Lemma hist_tset w t k o : w_hist (tset w t k o) = w_hist w.
+Proof. destruct t; reflexivity. Qed.
 
 (* completed operations (newest first) replayed on the sequential specification *)
 Inductive linearized (init : option value) : list (nat * op * res) -> option value -> Prop :=
@@ -50,27 +54,27 @@ Section One.
     - (* Set *)
       unfold set_start. destruct (category T k) eqn:Hc; cbn [is_pers_cat andb] in Hp; try rewrite Hp; rewrite <- ?Hct;
         unfold finish; cbn [cur cpc ops faults me fst snd spec_op];
-        rewrite ?tget_add_hist, ?tget_wr_same, ?spawned_wr, ?hist_wr; cbn; rewrite ?spawned_wr, ?hist_wr; repeat split; first [reflexivity | exact Hf].
+        rewrite ?tget_add_hist, ?tget_wr_same, ?spawned_wr, ?hist_wr; cbn; rewrite ?spawned_wr, ?hist_wr, ?spawned_tset, ?hist_tset; repeat split; first [reflexivity | exact Hf].
     - (* Get *)
       unfold get_start. destruct (category T k) eqn:Hc; cbn [is_pers_cat andb] in Hp; try rewrite Hp; rewrite <- ?Hct;
         destruct (tget w ct k) eqn:Ev; unfold get_done, val_res, finish; cbn [cur cpc ops faults me fst snd spec_op];
-        rewrite ?tget_add_hist, ?tget_acc, ?Ev; cbn; repeat split; first [reflexivity | exact Hf].
+        rewrite ?tget_add_hist, ?tget_acc, ?Ev; cbn; rewrite ?tget_add_hist, ?tget_acc, ?Ev; repeat split; first [reflexivity | exact Hf].
     - (* Delete *)
       unfold del_start. destruct (category T k) eqn:Hc; cbn [is_pers_cat andb] in Hp; try rewrite Hp; rewrite <- ?Hct;
         unfold finish; cbn [cur cpc ops faults me fst snd spec_op];
-        rewrite ?tget_add_hist, ?tget_wr_same; cbn; rewrite ?spawned_wr, ?hist_wr; repeat split; first [reflexivity | exact Hf].
+        rewrite ?tget_add_hist, ?tget_wr_same; cbn; rewrite ?spawned_wr, ?hist_wr, ?spawned_tset, ?hist_tset, ?tget_add_hist, ?tget_wr_same; repeat split; first [reflexivity | exact Hf].
     - (* Exists *)
       unfold exists_start. destruct (category T k) eqn:Hc; cbn [is_pers_cat andb negb] in Hp |- *; try rewrite Hp; rewrite <- ?Hct;
         destruct (tget w ct k) eqn:Ev; cbn [is_some]; unfold finish; cbn [cur cpc ops faults me fst snd spec_op];
-        rewrite ?tget_add_hist, ?tget_acc, ?Ev; cbn; repeat split; first [reflexivity | exact Hf].
+        rewrite ?tget_add_hist, ?tget_acc, ?Ev; cbn; rewrite ?tget_add_hist, ?tget_acc, ?Ev; repeat split; first [reflexivity | exact Hf].
     - (* Incr *)
       unfold incr_start. rewrite Hfi. fold ct.
       destruct (tget w ct k) as [[n|l|n]|] eqn:Ev; unfold finish; cbn [cur cpc ops faults me fst snd spec_op];
-        rewrite ?tget_add_hist, ?tget_wr_same, ?tget_acc, ?Ev; cbn; rewrite ?spawned_wr, ?hist_wr; repeat split; first [reflexivity | exact Hf].
+        rewrite ?tget_add_hist, ?tget_wr_same, ?tget_acc, ?Ev; cbn; rewrite ?spawned_wr, ?hist_wr, ?spawned_tset, ?hist_tset, ?tget_add_hist, ?tget_wr_same, ?tget_acc, ?Ev; repeat split; first [reflexivity | exact Hf].
     - (* SetNX *)
       unfold setnx_start. rewrite Hfn, H1. cbn [andb]. fold ct.
       destruct (tget w ct k) eqn:Ev; unfold finish; cbn [cur cpc ops faults me fst snd spec_op];
-        rewrite ?tget_add_hist, ?tget_wr_same, ?tget_acc, ?Ev; cbn; rewrite ?spawned_wr, ?hist_wr; repeat split; first [reflexivity | exact Hf].
+        rewrite ?tget_add_hist, ?tget_wr_same, ?tget_acc, ?Ev; cbn; rewrite ?spawned_wr, ?hist_wr, ?spawned_tset, ?hist_tset, ?tget_add_hist, ?tget_wr_same, ?tget_acc, ?Ev; repeat split; first [reflexivity | exact Hf].
   Qed.
 
   Definition thread1_ok (t : thread) : Prop :=
@@ -97,8 +101,9 @@ Section One.
         split; [rewrite P4; exact Hs|split].
         * rewrite P5, P6. constructor. exact Hl.
         * apply Forall_upd_nth; [exact Hts|]. cbn. rewrite P2. auto.
-    - cbn [fst snd]. auto.
-    - rewrite Hs. destruct j; cbn [nth_error fst snd]; auto.
+    - cbn [fst snd]. split; [exact Hs|split; [exact Hl|]]. apply Forall_upd_nth; [exact Hts|exact I].
+    - rewrite Hs. assert (E0 : nth_error (@nil (kbytes * tier * value)) j = None) by (destruct j; reflexivity).
+      rewrite E0. cbn [fst snd]. split; [exact Hs|split; [exact Hl|]]. apply Forall_upd_nth; [exact Hts|exact I].
   Qed.
 
   Theorem single_tier_linearizable init w ts sched :
